@@ -9,6 +9,8 @@ import random
 from harness import common, rules
 from harness.common import Ctx, s2n, n2s
 
+# component names that repeat the root / each other, so that an aliased dotted name re-occurs later inside a longer name
+SELF_SIMILAR = ["r", "a", "ra", "a_r", "r_a", "x"]
 ALIAS_STRINGS = ["A", "Core", "x.y", "a.b.c", r"\1", r"\g<0>", "$^.*+?()[]{}|", "back\\slash", "", "é", "r", "r.a"]
 
 
@@ -114,7 +116,7 @@ def run(ctx: Ctx):
     wire, refs = [], []
     for i in range(n):
         rng = ctx.rng
-        nodes = rules.rand_tree(rng, rng.choice((rules.COLLISION_FREE, rules.ADVERSARIAL, rules.ADVERSARIAL)), max_nodes=rng.choice([4, 8, 12]))
+        nodes = rules.rand_tree(rng, rng.choice((rules.COLLISION_FREE, rules.ADVERSARIAL, SELF_SIMILAR, SELF_SIMILAR)), max_nodes=rng.choice([4, 8, 12]))
         edges = rules.rand_edges(rng, nodes, 5)
         aliases = gen_aliases(rng, nodes) if rng.random() < 0.85 else None
         if aliases is not None and rng.random() < 0.08:
@@ -178,11 +180,17 @@ def rename_stream(ctx: Ctx, n: int):
         rng = ctx.rng
         anodes = abstract_tree(rng, rng.choice([5, 9]))
         keys = rng.sample(anodes, min(len(anodes), rng.randint(1, 3)))
+        if rng.random() < 0.5:
+            # a package with a child next to a sibling whose one-component name spells "package<any char>child"
+            anodes = sorted(set(anodes) | {(0,), (0, 1), (2,)})
+            keys = list(dict.fromkeys(keys + [(0, 1)]))
         alias_of = {k: rng.choice(["A", "B.c", "Z"]) for k in keys}
         perm = list(range(9))
         rng.shuffle(perm)
         results = []
-        for names in (FREE, [ADV[perm[i]] for i in range(9)], [ADV2[perm[(i + 2) % 9]] for i in range(9)]):
+        ADV3 = ["r", "rr", "r_", "a", "ar", "ra", "x", "xr", "rx"]     # names that repeat the root's name: an aliased dotted name re-occurs inside longer names
+        ADV4 = ["a", "b", "a_b", "b_a", "axb", "c", "a_c", "ab", "ba"]     # a dot in a dotted name read as "any character"
+        for names in (FREE, [ADV[perm[i]] for i in range(9)], [ADV2[perm[(i + 2) % 9]] for i in range(9)], [ADV3[perm[(i + 5) % 9]] for i in range(9)], ADV4):
             nodes = [render(x, names) for x in anodes]
             back = {render(x, names): x for x in anodes}
             arch = rules.make_arch_direct(nodes, [])
